@@ -1177,3 +1177,80 @@ func reflectTag(tag, key string) string {
 	}
 	return ""
 }
+
+// ---------- WEB-9: the data plane cannot reach the server's own records in the KV store ----------
+
+// ruleWEB9: the token signing key, the revocation list and the API-key policies are stored in the same key-value
+// store as user data, under the prefix auth.ReservedKVPrefix. Every API-layer function (HTTP handlers, MCP tools)
+// that hands a request-derived key to Engine.KVGet/KVSet/KVDelete must have passed the reserved-key test first.
+func ruleWEB9(w *World, r *Report) {
+	r.Doc("WEB-9", "in the API layers (internal/server, internal/mcp) every call of Engine.KVGet/KVSet/KVDelete with a non-constant key is reached only on the not-reserved edge of auth.IsReservedKey; the auth layer's own adapter is the one exception", 6)
+	guard := w.FuncObj("pkg/auth", "IsReservedKey")
+	if guard == nil {
+		r.Bad("WEB-9", "anchor:auth.IsReservedKey", "", "there is no reserved-key test: the KV routes hand any key to the engine, including _sys_auth::ecdsa_private_key (the token signing key — a read-role token can fetch it and sign its own admin tokens), the revocation list and the API-key policies")
+		return
+	}
+	kv := map[*types.Func]bool{}
+	for _, n := range []string{"Engine.KVGet", "Engine.KVSet", "Engine.KVDelete"} {
+		if o := w.FuncObj("pkg/engine", n); o != nil {
+			kv[o] = true
+		}
+	}
+	exceptions := map[string]string{
+		"journaledKV": "the auth layer's own store adapter (pkg/auth reads and writes its records through it; it is not reachable from a request path with a request-chosen key)",
+	}
+	n := 0
+	for _, fi := range w.ModuleFuncs() {
+		rp := relPkg(fi.Obj)
+		if rp != "internal/server" && rp != "internal/mcp" {
+			continue
+		}
+		root := w.SSAFunc(fi.Obj)
+		if root == nil {
+			continue
+		}
+		if sig, _ := fi.Obj.Type().(*types.Signature); sig != nil && sig.Recv() != nil {
+			if why, ok := exceptions[typeLabelShort(sig.Recv().Type())]; ok {
+				r.Except(shortName(fi.Obj) + ": " + why)
+				continue
+			}
+		}
+		for _, f := range append([]*ssa.Function{root}, closuresOf(root)...) {
+			k := 0
+			for _, in := range findInstrs(f, func(in ssa.Instruction) bool {
+				c, ok := in.(*ssa.Call)
+				if !ok {
+					return false
+				}
+				o := calleeObj(&c.Call)
+				return o != nil && kv[o]
+			}) {
+				c := in.(*ssa.Call)
+				if _, isConst := c.Call.Args[1].(*ssa.Const); isConst {
+					continue
+				}
+				n++
+				k++
+				cc := in
+				ok, wit := mustPassGuard(f, func(x ssa.Instruction) bool { return x == cc }, callsTo(guard), callValue, false, nil)
+				if len(findInstrs(f, callsTo(guard))) == 0 {
+					ok = false
+				}
+				r.Cond(ok, "WEB-9", fmt.Sprintf("%s:%s#%d:behind-reserved-key-test", shortName(fi.Obj), calleeObj(&c.Call).Name(), k), w.Pos(c.Pos()), "reached only when the key is not one of the server's own records", shortName(fi.Obj)+" hands a request-chosen key to "+calleeObj(&c.Call).Name()+" without the reserved-key test: a token with the global namespace reads the token signing key (and signs its own admin tokens), overwrites it, or deletes a revocation entry through the data-plane KV API", w.witness(wit)...)
+			}
+		}
+	}
+	if n == 0 {
+		r.Und("WEB-9", "anchor:kv-api", "", "no KV access with a request-chosen key found in the API layers")
+	}
+}
+
+func typeLabelShort(t types.Type) string {
+	if p, ok := t.(*types.Pointer); ok {
+		t = p.Elem()
+	}
+	if n, ok := t.(*types.Named); ok {
+		return n.Obj().Name()
+	}
+	return t.String()
+}
